@@ -301,6 +301,21 @@ static inline void ctx_{prefix}_drop({ty} *self) {{
 
     // Create wrappers to group objects
 
+    // A function name that occurs in more than one trait of the same group needs the trait name
+    // in its wrapper name as well, otherwise only the first of them would get a wrapper.
+    let mut group_fn_traits: HashMap<(String, String), HashSet<String>> = HashMap::new();
+
+    for (t, cont, second_half, _, _, funcs) in &group_vtbls {
+        let container_ty = format!("struct {}Container_{}", cont, second_half);
+
+        for f in Vtable::new(t.to_string(), funcs, &container_ty)?.functions {
+            group_fn_traits
+                .entry((cont.clone(), f.name))
+                .or_default()
+                .insert(t.clone());
+        }
+    }
+
     for (t, cont, second_half, inner, context, funcs) in group_vtbls {
         let this_ty = format!("struct {}_{}", cont, second_half);
         let container_ty = format!("struct {}Container_{}", cont, second_half);
@@ -327,9 +342,22 @@ static inline void ctx_{prefix}_drop({ty} *self) {{
             .copied()
             .unwrap_or_else(|| ContextType::from_name(context.as_str()));
 
+        let clash_prefix = format!("{}_{}", cont, vtbl.name);
+
         let wrappers = vtbl.create_wrappers_c(
             ("container", &format!("vtbl_{}", vtbl.name.to_lowercase())),
-            ("", &|_| Some(&cont)),
+            ("", &|f| {
+                let clashes = group_fn_traits
+                    .get(&(cont.clone(), f.name.clone()))
+                    .map(|traits| traits.len() > 1)
+                    .unwrap_or(false);
+
+                if clashes {
+                    Some(&clash_prefix)
+                } else {
+                    Some(&cont)
+                }
+            }),
             (&container_ty, inner, container_wrappers.is_some()),
             (&context, ctx, context_wrappers.is_some()),
             (&this_ty, &[]),
